@@ -31,6 +31,23 @@ func rawFor(n int) it {
 	})))
 }
 
+// rawSharedInner re-runs ONE inner loop value for every outer iteration.
+func rawSharedInner(n int, first bool) it {
+	r, c := 0, 0
+	inner := seq.While(func() bool { return c < 3 }, seq.Delay(func() seq.Seq[int] {
+		c++
+		if (r == n-1 && c == 3) || (first && r == 0 && c == 1) {
+			return seq.Bind(r, seq.Normal[int])
+		}
+		return seq.Normal[int]()
+	}))
+	return seq.Start(seq.While(func() bool { mon.At(r); return r < n }, seq.Combine(inner, seq.Delay(func() seq.Seq[int] {
+		r++
+		c = 0
+		return seq.Normal[int]()
+	}))))
+}
+
 func rawWhileContinue(n int) it {
 	i := 0
 	return seq.Start(seq.While(func() bool { return i < n }, seq.Delay(func() seq.Seq[int] {
@@ -71,32 +88,41 @@ func rawCombineInLoop(n int) it {
 func main() {
 	config := flag.String("config", "", "")
 	n := flag.Int("n", 1000, "")
+	first := flag.Bool("first", false, "also yield at the first iteration (the long non-yielding stretch then comes AFTER a yield)")
 	flag.Parse()
 	res := map[string]any{"config": *config, "n": *n}
 	var g it
 	switch *config {
 	case "ForPost":
-		g = loops.ForPost(*n)
+		g = loops.ForPost(*n, *first)
 	case "ForCondProbe":
-		g = loops.ForCondProbe(*n)
+		g = loops.ForCondProbe(*n, *first)
 	case "While":
-		g = loops.While(*n)
+		g = loops.While(*n, *first)
 	case "Infinite":
-		g = loops.Infinite(*n)
+		g = loops.Infinite(*n, *first)
 	case "Continue":
-		g = loops.Continue(*n)
+		g = loops.Continue(*n, *first)
 	case "ContinueWhile":
-		g = loops.ContinueWhile(*n)
+		g = loops.ContinueWhile(*n, *first)
 	case "RangeInt":
-		g = loops.RangeInt(*n)
+		g = loops.RangeInt(*n, *first)
 	case "RangeSlice":
-		g = loops.RangeSlice(*n)
+		g = loops.RangeSlice(*n, *first)
 	case "Switch":
-		g = loops.Switch(*n)
+		g = loops.Switch(*n, *first)
 	case "Nested":
-		g = loops.Nested(*n)
+		g = loops.Nested(*n, *first)
 	case "Filter":
-		g = loops.Filter(*n)
+		g = loops.Filter(*n, *first)
+	case "NestedCondInner":
+		g = loops.NestedCondInner(*n, *first)
+	case "NestedEndlessInner":
+		g = loops.NestedEndlessInner(*n, *first)
+	case "ThreeLevels":
+		g = loops.ThreeLevels(*n, *first)
+	case "rawSharedInner":
+		g = rawSharedInner(*n, *first)
 	case "rawFor":
 		g = rawFor(*n)
 	case "rawWhileContinue":
@@ -130,6 +156,7 @@ func main() {
 		yields++
 	}
 	res["yields"] = yields
+	res["first"] = *first
 	res["depths"] = mon.Depths
 	bs, _ := json.Marshal(res)
 	fmt.Println("RESULT:" + string(bs))
